@@ -1125,12 +1125,16 @@ class ModelRun:
                 del batch[:]
 
         walkstate = {"cands": [], "walk": [], "level": 0}
+        budget = core.Budget()
 
         def finish_walk():
             w = walkstate["walk"]
             if walkstate["cands"]:
                 w = w + [walkstate["cands"][0]]        # the last level: any candidate is a legal last step
             walkstate["cands"], walkstate["walk"] = [], []
+            if len(w) >= 2 and budget.skip():
+                self.stats["skipped_by_budget"] = self.stats.get("skipped_by_budget", 0) + 1
+                return
             if len(w) >= 2:
                 self.stats["walks"] = self.stats.get("walks", 0) + 1
                 for st in w:
@@ -1179,6 +1183,10 @@ class ModelRun:
             if self.max_tx and self.stats["exported"] - self.stats["skipped"] > self.max_tx:
                 self.stats["skipped"] += 1
                 return
+            if budget.skip():
+                self.stats["skipped"] += 1
+                self.stats["skipped_by_budget"] = self.stats.get("skipped_by_budget", 0) + 1
+                return
             if len(self.samples) < 3 and self.per_action[key] == 1 and len(tx["hist"]) >= 2:
                 self.samples.append({"hist": tx["hist"], "act": tx["act"]})
             batch.append(tx)
@@ -1212,6 +1220,7 @@ class ModelRun:
                 "probes": self.stats["probes"],
                 "refusal_classes": {"%s/%s/%s -> %s" % k: v for k, v in sorted(self.refusals.items(), key=repr)},
                 "per_action": dict(sorted(self.per_action.items())),
+                "skipped_by_time_budget": self.stats.get("skipped_by_budget", 0),
                 "tlc_wall_s": round(r.wall, 1)}
 
 
